@@ -15,7 +15,9 @@ import Osmium.Lemmas.WriterSMLive
 import Osmium.Lemmas.WriterSMQueue
 import Osmium.Lemmas.WriterSMEnd
 import Osmium.Lemmas.WriterSMRank
+import Osmium.Lemmas.WriterSMQ
 import Osmium.Generated.Consts
+import Osmium.Generated.C08Guards
 
 namespace Osmium.C08
 
@@ -278,6 +280,73 @@ theorem threads_finish_repaired (h0 : S.Inv k0 os0 []) (hd : ∃ ib e, Api.dtor 
 
 end repaired
 
+/-! ## Per output format: the clause holds exactly where a guard keeps empty blocks out -/
+
+section formats
+variable {κ : Type} {cfg : Cfg κ} {enc : List Bytes → Bytes} (S : CompSpec cfg.comp enc)
+  {k0 : κ} {os0 : OS} {script : List Api}
+
+/-- **close_ok_all_handed_over_fmt** — the full clause for every output format `f` of a tree
+    (described by its guard table `T`) in which a block without writable objects is kept out
+    of the queue on BOTH paths (`do_write` and `do_flush`), by the format's `write_buffer` or
+    by the Writer: any compressor meeting its contract, all scripts, OS schedules, interleavings. -/
+theorem close_ok_all_handed_over_fmt (T : GuardTable) (f : Fmt) (hg : T.guards f = ⟨true, true⟩)
+    (h0 : S.Inv k0 os0 []) {s : St κ}
+    (hr : (fmtMachine T f cfg k0 os0 script).Reachable s) {ib : Option Enc} {eEnd : Enc} {n : Nat}
+    (hfl : firstLoud s.results = some (.close ib eEnd, .ok n)) :
+    s.pushed = s.written.map Res.data ++ [Res.data []] ∧
+    s.os.file = enc s.written ∧ n = s.os.file.length ∧ s.os.faults = 0 := by
+  unfold fmtMachine at hr
+  rw [hg, guardedMachine_tt] at hr
+  exact close_ok_all_handed_over S h0 hr hfl
+
+/-- the other clauses do not depend on the guards (any format, guarded or not): no stuck state -/
+theorem threads_finish_fmt (T : GuardTable) (f : Fmt) (h0 : S.Inv k0 os0 [])
+    (hd : ∃ ib e, Api.dtor ib e ∈ script) {s : St κ}
+    (hr : (fmtMachine T f cfg k0 os0 script).Reachable s) (hnd : s.destroyed = false) :
+    (fmtMachine T f cfg k0 os0 script).Enabled s :=
+  threads_finish (cfg := cfg.repair) S h0 (dtor_mem_guard hd) hr hnd
+
+/-- … and a fault is reported whatever the format does with empty blocks -/
+theorem any_fault_reported_fmt (T : GuardTable) (f : Fmt) (h0 : S.Inv k0 os0 []) {s : St κ}
+    (hr : (fmtMachine T f cfg k0 os0 script).Reachable s) (hf : s.os.faults > 0)
+    {ib : Option Enc} {eEnd : Enc} {n : Nat} :
+    firstLoud s.results ≠ some (.close ib eEnd, .ok n) :=
+  any_fault_reported (cfg := cfg.repair) S h0 hr hf
+
+end formats
+
+/-- the guard table of the CURRENT source (regenerated from /repo/include on every run) -/
+def currentTable : GuardTable :=
+  { writerDoWrite := Osmium.Generated.C08Guards.writerDoWrite
+    writerDoFlush := Osmium.Generated.C08Guards.writerDoFlush
+    fmt := fun
+      | .opl => Osmium.Generated.C08Guards.opl
+      | .xml => Osmium.Generated.C08Guards.xml
+      | .pbf => Osmium.Generated.C08Guards.pbf
+      | .debug => Osmium.Generated.C08Guards.debug
+      | .ids => Osmium.Generated.C08Guards.ids
+      | .blackhole => Osmium.Generated.C08Guards.blackhole }
+
+/-- Tie to the current source: OPL, XML, PBF and blackhole are guarded on both paths (the proof
+    no longer checks as soon as a guard disappears from one of the two paths, e.g. when the
+    test is moved into `Writer::do_write` only). -/
+theorem current_tree_guards :
+    ∀ f ∈ [Fmt.opl, Fmt.xml, Fmt.pbf, Fmt.blackhole], currentTable.guards f = ⟨true, true⟩ := by
+  decide
+
+/-- hence the full clause for these formats in the current tree -/
+theorem close_ok_all_handed_over_current {κ : Type} {cfg : Cfg κ} {enc : List Bytes → Bytes}
+    (S : CompSpec cfg.comp enc) {k0 : κ} {os0 : OS} {script : List Api}
+    (f : Fmt) (hf : f ∈ [Fmt.opl, Fmt.xml, Fmt.pbf, Fmt.blackhole])
+    (h0 : S.Inv k0 os0 []) {s : St κ}
+    (hr : (fmtMachine currentTable f cfg k0 os0 script).Reachable s)
+    {ib : Option Enc} {eEnd : Enc} {n : Nat}
+    (hfl : firstLoud s.results = some (.close ib eEnd, .ok n)) :
+    s.pushed = s.written.map Res.data ++ [Res.data []] ∧
+    s.os.file = enc s.written ∧ n = s.os.file.length ∧ s.os.faults = 0 :=
+  close_ok_all_handed_over_fmt S currentTable f (current_tree_guards f hf) h0 hr hfl
+
 /-! ## The three compressors -/
 
 /-- NoCompressor: a successful close() means the file is byte for byte the concatenation of
@@ -403,6 +472,59 @@ theorem prefix_close_ok_all_handed_over_refuted : ¬ PreFixCloseOkMeansAllHanded
   revert this
   decide +kernel
 
+/-! ### The same clause per guard setting: it holds IFF both paths are guarded
+
+`debug` and `ids` are unguarded on both paths in the tree this file was written against
+(`Generated/C08Guards.lean`; finding `empty-block-taken-for-end-marker:debug|ids`, reproduced
+on the real code by the check's monitor M3 with the scripts `b2,a1,b2,c` and `b2,j1,f,i2,c`).
+Nothing below asserts that they ARE unguarded: once the guard is added (in the formats or in
+the Writer) `close_ok_all_handed_over_fmt` applies to them as it stands. -/
+
+/-- the full clause for a Writer with guards `g` (NoCompressor, every header, queue bound,
+    script, interleaving) -/
+def CloseOkMeansAllHandedOver (g : Guards) : Prop :=
+  ∀ (sync : Bool) (hdr : Enc) (qmax : Nat) (script : List Api) (s : St NoState),
+    (guardedMachine g ⟨noComp, hdr, qmax⟩ { sync := sync } {} script).Reachable s →
+    ∀ ib eEnd n, firstLoud s.results = some (.close ib eEnd, .ok n) →
+      CompleteAll s ∧ n = s.os.file.length
+
+/-- an area-only internal buffer handed over by flush() (the do_flush path), then more data -/
+def emptyFlushScript : List Api :=
+  [.put none { items := [blk [1, 2]] }, .item none, .flush (some { items := [blk []] }),
+   .put none { items := [blk [3]] }, .close none {}, .dtor none {}]
+
+def unguardedRun (g : Guards) (script : List Api) : St NoState :=
+  (runSched demoCfg.repair true 200 (initSt { sync := false } {} (script.map (Api.guard g)))).2
+
+theorem unguardedRun_reachable (g : Guards) (script : List Api) :
+    (guardedMachine g demoCfg { sync := false } {} script).Reachable (unguardedRun g script) :=
+  runSched_reachable true 200 _ .init
+
+/-- **close_ok_all_handed_over_iff_guarded**: the clause holds for a Writer exactly when a block
+    that encodes to the empty string is kept out of the queue on the do_write path AND on
+    the do_flush path.  (⇐ is `close_ok_all_handed_over`; ⇒: with the do_write guard missing
+    the script `put [1,2]; put ""; put [3]; close` loses [3], with only the do_flush guard
+    missing `put [1,2]; item; flush→""; put [3]; close` does — in both runs close() returns 2
+    and nobody throws.) -/
+theorem close_ok_all_handed_over_iff_guarded (g : Guards) :
+    CloseOkMeansAllHandedOver g ↔ (g.doWrite = true ∧ g.doFlush = true) := by
+  constructor
+  · intro h
+    rcases g with ⟨_ | _, _ | _⟩
+    · have := h false {} 0 emptyBlockScript _ (unguardedRun_reachable _ _) none {} 2 (by decide +kernel)
+      revert this; decide +kernel
+    · have := h false {} 0 emptyBlockScript _ (unguardedRun_reachable _ _) none {} 2 (by decide +kernel)
+      revert this; decide +kernel
+    · have := h false {} 0 emptyFlushScript _ (unguardedRun_reachable _ _) none {} 2 (by decide +kernel)
+      revert this; decide +kernel
+    · exact ⟨rfl, rfl⟩
+  · rintro ⟨h1, h2⟩
+    obtain ⟨w, f⟩ := g
+    cases h1; cases h2
+    intro sync hdr qmax script s hr ib eEnd n hfl
+    rw [guardedMachine_tt] at hr
+    exact close_ok_all_handed_over_none hr hfl
+
 /-- the same script through the repaired output formats: the empty block is never submitted,
     the file is complete -/
 def repairedEmptyBlockRun : St NoState :=
@@ -410,6 +532,106 @@ def repairedEmptyBlockRun : St NoState :=
 
 example : repairedEmptyBlockRun.os.file = [1, 2, 3] ∧ CompleteAll repairedEmptyBlockRun ∧
     firstLoud repairedEmptyBlockRun.results = some (.close none {}, .ok 3) := by decide +kernel
+
+/-! ## The output queue at lock granularity (Model/WriterSMQ.lean)
+
+The theorems above are about `WriterSM.machine`, where `Queue::push`, `queue_wrapper::pop` and
+`Queue::shutdown` are single events.  `WriterSMQ.machine` replaces that queue by a copy of
+C19's lock-granular `QueueSM` (unlocked `m_in_use` test, size polling with the 10 ms timed
+wait, enqueue + notify_one, wait / wake / re-wait on `m_data_available`, shutdown = flag
+store then drain + notify_all).  Every run of it is matched step by step by a run of
+`WriterSM.machine` on `abs` (which only forgets the queue internals), so every statement about
+reachable states above holds for it; and its queue is a run of `QueueSM.machine`. -/
+
+section lockgranular
+open Osmium.WriterSMQ
+variable {κ : Type} {cfg : Cfg κ} {sp : Bool} {k0 : κ} {os0 : OS} {script : List Api}
+
+/-- **Refinement** (all schedules of the lock-granular machine, with or without spurious
+    wake-ups): the abstraction of a reachable state is reachable in the atomic-queue machine.
+    `abs s` has the same `results` (API outcomes), `os` (file, faults), compressor state,
+    status, promise and ghost histories `pushed` / `taken` / `written` as `s.base`. -/
+theorem lockgranular_refines_atomic {s : FSt κ}
+    (hr : (WriterSMQ.machine cfg sp k0 os0 script).Reachable s) :
+    (WriterSM.machine cfg k0 os0 script).Reachable (WriterSMQ.abs s) ∧
+    (WriterSMQ.abs s).results = s.base.results ∧ (WriterSMQ.abs s).os = s.base.os ∧
+    (WriterSMQ.abs s).pushed = s.base.pushed ∧ (WriterSMQ.abs s).written = s.base.written ∧
+    (WriterSMQ.abs s).taken = s.base.taken ∧ (WriterSMQ.abs s).status = s.base.status ∧
+    (WriterSMQ.abs s).destroyed = s.base.destroyed :=
+  ⟨reachable_abs hr, rfl, rfl, rfl, rfl, rfl, rfl, rfl⟩
+
+/-- transfer principle: whatever holds in every reachable state of the atomic-queue machine
+    holds of the abstraction of every reachable state of the lock-granular machine -/
+theorem lockgranular_transfer {P : St κ → Prop}
+    (hP : ∀ s, (WriterSM.machine cfg k0 os0 script).Reachable s → P s) {s : FSt κ}
+    (hr : (WriterSMQ.machine cfg sp k0 os0 script).Reachable s) : P (WriterSMQ.abs s) :=
+  hP _ (reachable_abs hr)
+
+/-- The output queue of every run is a run of C19's queue machine (max size = the Writer's
+    queue bound): `queue_conservation`, `per_producer_fifo`, `no_lost_wakeup`,
+    `blocked_consumer_can_progress`, `shutdown_wakes_all` of Props/C19 apply to it as they stand. -/
+theorem lockgranular_queue_is_QueueSM {s : FSt κ}
+    (hr : (WriterSMQ.machine cfg sp k0 os0 script).Reachable s) :
+    (QueueSM.machine Nat { max := cfg.qmax, spurious := sp }).Reachable s.qs :=
+  reachable_queue hr
+
+/-- **close_ok_implies_complete at lock granularity** (any compressor meeting its contract) -/
+theorem close_ok_implies_complete_lockgranular {enc : List Bytes → Bytes}
+    (S : CompSpec cfg.comp enc) (h0 : S.Inv k0 os0 []) {s : FSt κ}
+    (hr : (WriterSMQ.machine cfg sp k0 os0 script).Reachable s)
+    {ib : Option Enc} {eEnd : Enc} {n : Nat}
+    (hfl : firstLoud s.base.results = some (.close ib eEnd, .ok n)) :
+    s.base.os.faults = 0 ∧ s.base.os.file = enc s.base.written ∧ n = s.base.os.file.length ∧
+    ∃ tail, s.base.pushed = s.base.written.map Res.data ++ Res.data [] :: tail :=
+  close_ok_implies_complete S h0 (reachable_abs hr) hfl
+
+/-- **close_ok_all_handed_over at lock granularity**: the full clause for a Writer guarded on
+    both paths (OPL / XML / PBF / blackhole in the current tree) -/
+theorem close_ok_all_handed_over_lockgranular {enc : List Bytes → Bytes}
+    (S : CompSpec cfg.comp enc) (h0 : S.Inv k0 os0 []) {s : FSt κ}
+    (hr : (WriterSMQ.machine cfg.repair sp k0 os0 (script.map Api.repair)).Reachable s)
+    {ib : Option Enc} {eEnd : Enc} {n : Nat}
+    (hfl : firstLoud s.base.results = some (.close ib eEnd, .ok n)) :
+    s.base.pushed = s.base.written.map Res.data ++ [Res.data []] ∧
+    s.base.os.file = enc s.base.written ∧ n = s.base.os.file.length ∧ s.base.os.faults = 0 :=
+  close_ok_all_handed_over (script := script) S h0 (reachable_abs hr) hfl
+
+/-- any fault is reported, at lock granularity -/
+theorem any_fault_reported_lockgranular {enc : List Bytes → Bytes}
+    (S : CompSpec cfg.comp enc) (h0 : S.Inv k0 os0 []) {s : FSt κ}
+    (hr : (WriterSMQ.machine cfg sp k0 os0 script).Reachable s) (hf : s.base.os.faults > 0)
+    {ib : Option Enc} {eEnd : Enc} {n : Nat} :
+    firstLoud s.base.results ≠ some (.close ib eEnd, .ok n) :=
+  any_fault_reported S h0 (reachable_abs hr) hf
+
+/-- an exception leaves the Writer in error/closed state, at lock granularity -/
+theorem raised_means_error_state_lockgranular {enc : List Bytes → Bytes}
+    (S : CompSpec cfg.comp enc) (h0 : S.Inv k0 os0 []) (hd : ∃ ib e, Api.dtor ib e ∈ script)
+    {s : FSt κ} (hr : (WriterSMQ.machine cfg sp k0 os0 script).Reachable s) {a : Api} {e : Err}
+    (hm : (a, Outcome.raised e) ∈ s.base.results) : s.base.status ≠ .okay :=
+  raised_means_error_state (s := WriterSMQ.abs s) S h0 hd (reachable_abs hr) hm
+
+end lockgranular
+
+/-- non-vacuity: the lock-granular machine (no spurious wake-ups, queue bound 2) runs `okScript`
+    to the end — the write thread really sleeps on the condition variable and is woken by
+    notify_one — with the complete file -/
+def okRunQ (wtFirst : Bool) (qmax : Nat) : WriterSMQ.FSt NoState :=
+  (WriterSMQ.runSchedF ⟨noComp, {}, qmax⟩ false wtFirst 400 (WriterSMQ.initF { sync := true } {} okScript)).2
+
+theorem okRunQ_reachable (b : Bool) (qmax : Nat) :
+    (WriterSMQ.machine ⟨noComp, {}, qmax⟩ false { sync := true } {} okScript).Reachable (okRunQ b qmax) :=
+  WriterSMQ.runSchedF_reachable b 400 _ .init
+
+example : (okRunQ true 2).base.destroyed = true := by decide +kernel
+example : (okRunQ true 2).base.os.file = [1, 2, 3] := by decide +kernel
+example : firstLoud (okRunQ true 2).base.results = some (.close none {}, .ok 3) := by decide +kernel
+example : (okRunQ true 2).qs.waiters = [] ∧ (okRunQ true 2).qs.popped.length = 3 := by decide +kernel
+
+/-- producer first, unbounded queue (with a bound the unfair scheduler would let the producer
+    poll the full queue forever: progress of the polling loop needs a fair scheduler) -/
+example : (okRunQ false 0).base.destroyed = true ∧ (okRunQ false 0).base.os.file = [1, 2, 3] := by
+  decide +kernel
 
 /-- Tie of `reliable_write`'s chunk limit to the CURRENT source (regenerated `Generated/Consts.lean`). -/
 theorem consts_tie_writer : maxWrite = Osmium.Generated.Consts.maxWrite := by decide
